@@ -103,23 +103,35 @@ def c08b(tree, ob):
             ob.violate(BUNDLE, fb.qual, src(a), 'a block is reported as failed independently of its CRC check', a)
 
 
+FULL = "defn['encode'](defn['func'](cbor2.dumps(self.build())))"
+
+
 def _crc_core(tree, ob, meth):
-    ''' Extract the CRC computation core of update_crc / check_crc. '''
+    ''' The CRC computation core of update_crc / check_crc, read on fully inlined expressions (whether the encoding, the
+    integer CRC and its packed form are given names on the way is irrelevant). '''
     fv = FuncView(tree, BLOCKS, 'AbstractBlock.' + meth)
     func = fv.func
     zero = [n for n in walk_local(func) if isinstance(n, ast.Assign) and pm("self.fields[self.crc_value_name]", n.targets[0]) is not None
-            and pm("defn['encode'](0)", n.value) is not None]
-    pre = [n for n in walk_local(func) if isinstance(n, ast.Assign) and pm('cbor2.dumps(self.build())', n.value) is not None]
-    crc = [n for n in walk_local(func) if isinstance(n, ast.Assign) and pm("defn['func']($x)", n.value) is not None]
+            and pm("defn['encode'](0)", fv.value_at(n.value, n, depth=2, keep=('defn',))) is not None]
+    # the statement that evaluates the encoding of the block
+    pre = [n for n in walk_local(func) if isinstance(n, (ast.Assign, ast.Expr, ast.Return)) and n.value is not None and 'cbor2.dumps(self.build())' in src(n.value)]
+    # statements whose value, inlined, is (or compares with) the packed CRC of that encoding
+    full = []
+    for n in walk_local(func):
+        if isinstance(n, ast.Assign):
+            v = fv.value_at(n.value, n, depth=6, keep=('defn', 'crc_value'))
+            if pm(FULL, v) is not None or (isinstance(v, ast.Compare) and len(v.ops) == 1 and isinstance(v.ops[0], ast.Eq) and
+                                           (pm(FULL, v.comparators[0]) is not None or pm(FULL, v.left) is not None)):
+                full.append((n, v))
     defn = [n for n in walk_local(func) if isinstance(n, ast.Assign) and src(n.targets[0]) == 'defn']
-    return fv, zero, pre, crc, defn
+    return fv, zero, pre, full, defn
 
 
 def c08c(tree, ob):
     cores = {}
     for meth in ('update_crc', 'check_crc'):
-        fv, zero, pre, crc, defn = _crc_core(tree, ob, meth)
-        cores[meth] = (fv, zero, pre, crc, defn)
+        fv, zero, pre, full, defn = _crc_core(tree, ob, meth)
+        cores[meth] = (fv, zero, pre, full, defn)
         qual = fv.qual
         if not pre:
             ob.violate(BLOCKS, qual, 'cbor2.dumps(self.build())', 'the CRC is not computed over the encoding of the whole block', fv.func)
@@ -136,10 +148,10 @@ def c08c(tree, ob):
                 ob.violate(BLOCKS, qual, rew[0].text()[:70], 'the zeroed CRC field is overwritten again before the block is encoded', rew[0].ast)
             else:
                 ob.site(BLOCKS, zs[-1], meth + ': zeroed CRC field, then encode the whole block')
-        if not crc or src(crc[0].value.args[0]) != src(p.targets[0]):
+        if not full:
             ob.violate(BLOCKS, qual, "defn['func'](pre_crc)", 'the CRC function is not applied to that encoding', p)
         else:
-            ob.site(BLOCKS, crc[0], meth + ': CRC over the zero-field encoding')
+            ob.site(BLOCKS, full[0][0], meth + ': CRC over the zero-field encoding')
         d = [x for x in defn if pm('AbstractBlock.CRC_DEFN[crc_type]', x.value) is not None or pm('self.CRC_DEFN[crc_type]', x.value) is not None]
         if len(d) != len(defn) or not d:
             ob.violate(BLOCKS, qual, src(defn[0]) if defn else 'defn', 'algorithm is not selected from CRC_DEFN by the block CRC type', fv.func)
@@ -147,23 +159,28 @@ def c08c(tree, ob):
         if not ctype or pm('self.getfieldval(self.crc_type_name)', ctype[0].value) is None:
             ob.violate(BLOCKS, qual, 'crc_type', 'CRC type is not read from the block CRC-type field', fv.func)
     # update stores the computed value; check compares and restores
-    fv, zero, pre, crc, defn = cores['update_crc']
-    if crc:
-        encs = [n for n in walk_local(fv.func) if isinstance(n, ast.Assign) and pm("defn['encode']({})".format(src(crc[0].targets[0])), n.value) is not None]
+    fv, zero, pre, full, defn = cores['update_crc']
+    comp = [(n, v) for (n, v) in full if not isinstance(v, ast.Compare)]
+    if comp:
+        (cn, _v) = comp[0]
+        # the computed value reaches the field: stored directly, or through the local it was assigned to
+        tgt = src(cn.targets[0])
         finals = [n for n in walk_local(fv.func) if isinstance(n, ast.Assign) and pm('self.fields[self.crc_value_name]', n.targets[0]) is not None
-                  and encs and src(n.value) == src(encs[0].targets[0])]
-        if not encs or not finals or not fv.cfg.must_pass(fv.node(encs[0]), fv.cfg.exit, {fv.node(f) for f in finals}, include_exc=False)[0]:
+                  and (n is cn or src(n.value) == tgt)]
+        if not finals or not (cn in finals or fv.cfg.must_pass(fv.node(cn), fv.cfg.exit, {fv.node(f) for f in finals}, include_exc=False)[0]):
             ob.violate(BLOCKS, fv.qual, 'self.fields[self.crc_value_name] = crc_value', 'the computed CRC is not stored in the block', fv.func)
         else:
             ob.site(BLOCKS, finals[0], 'update_crc stores encode(crc)')
-    fv, zero, pre, crc, defn = cores['check_crc']
-    if crc:
-        cmps = [n for n in walk_local(fv.func) if isinstance(n, ast.Assign) and isinstance(n.value, ast.Compare)
-                and pm("crc_value == defn['encode']({})".format(src(crc[0].targets[0])), n.value) is not None]
+    elif pre:
+        ob.violate(BLOCKS, fv.qual, 'self.fields[self.crc_value_name] = crc_value', 'the computed CRC is not stored in the block', fv.func)
+    fv, zero, pre, full, defn = cores['check_crc']
+    if pre:
+        cmps = [(n, v) for (n, v) in full if isinstance(v, ast.Compare) and (src(v.left) == 'crc_value' or src(v.comparators[0]) == 'crc_value')]
         if not cmps:
             ob.violate(BLOCKS, fv.qual, "valid = crc_value == defn['encode'](crc_int)", 'the received CRC is not compared with the recomputed one', fv.func)
         else:
-            ob.site(BLOCKS, cmps[0], 'check_crc compares received with recomputed')
+            cmpn = cmps[0][0]
+            ob.site(BLOCKS, cmpn, 'check_crc compares received with recomputed')
             rest = [n for n in walk_local(fv.func) if isinstance(n, ast.Assign) and pm('self.fields[self.crc_value_name]', n.targets[0]) is not None and src(n.value) == 'crc_value']
             if not rest or fv.node(rest[0]) not in fv.cfg.reachable([fv.node(pre[0])]):
                 ob.violate(BLOCKS, fv.qual, 'self.fields[self.crc_value_name] = crc_value', 'the received CRC value is not restored after the check', fv.func)
@@ -171,7 +188,7 @@ def c08c(tree, ob):
             if not cv or pm('self.fields.get(self.crc_value_name)', cv[0].value) is None or (zero and not fv.dominates(cv[0], zero[0])[0]):
                 ob.violate(BLOCKS, fv.qual, 'crc_value = self.fields.get(self.crc_value_name)', 'the received CRC is not saved before the field is zeroed', fv.func)
             rets = [r for r in walk_local(fv.func) if isinstance(r, ast.Return) and r.value is not None and not isinstance(r.value, ast.Constant)]
-            if not rets or any(src(r.value) != src(cmps[0].targets[0]) for r in rets):
+            if not rets or any(src(r.value) != src(cmpn.targets[0]) for r in rets):
                 ob.violate(BLOCKS, fv.qual, 'return valid', 'check_crc does not return the comparison result', fv.func)
     # all-block loops
     for meth, inner in (('update_all_crc', 'update_crc'), ('check_all_crc', 'check_crc')):
